@@ -196,6 +196,37 @@ Theorem C16_oracle_accepts_model_env : forall fuel e a b marker uv c mode ld per
 Proof. exact oracle_accepts_model_env. Qed.
 Print Assumptions C16_oracle_accepts_model_env.
 
+(* --------------------------------------------------- the mode file *)
+
+(* Start takes the mode from the mode FILE (Model/Start: mode_of_bytes =
+   TrimSpace of the whole content, then the part before the first space;
+   program_run_file, spawned_file).  A file that reads as "off" - however it was
+   written - makes Start inert: nothing started by any marker, entry point,
+   flags, to any depth; the application only reads the mode; nobody but an
+   already running sidecar writes. *)
+Theorem C16_off_file_inert : forall fuel e a b marker uv c d ld period now tok, mode_of_bytes d = lit_off ->
+  spawned_file fuel e a b marker uv c (Some d) ld period now tok = [] /\
+  program_run_file e a b [] uv c (Some d) ld period now tok = mkR OReturned [EReadMode] tok /\
+  (marker <> lit_1 ->
+   forall x, In x (r_effects (program_run_file e a b marker uv c (Some d) ld period now tok)) ->
+     is_write x = false /\ is_exec x = false).
+Proof. exact off_file_inert. Qed.
+Print Assumptions C16_off_file_inert.
+
+(* The hand-written spellings: off, off+LF, off+CRLF, blanks around, with a
+   date, with a date and a line end, with garbage after a space, NBSP ... *)
+Theorem C16_off_spelling_is_off : forall d, In d off_spellings -> mode_of_bytes d = lit_off.
+Proof. exact off_spelling_is_off. Qed.
+Print Assumptions C16_off_spelling_is_off.
+
+Theorem C16_oracle_accepts_model_file : forall fuel e a b marker uv c file ld period now tok,
+  let m := effective_mode (dir_known a b) (mode_of_file file) in
+  let r := program_run_file e a b marker uv c file ld period now tok in
+  start_ok marker uv c m period now tok (token_created r) (fs_changed r)
+           (spawned_file fuel e a b marker uv c file ld period now tok) = true.
+Proof. exact oracle_accepts_model_file. Qed.
+Print Assumptions C16_oracle_accepts_model_file.
+
 (* --------------------------------------------------- upload token *)
 
 (* Any number n of starters, any schedule (any interleaving of their Stat /
@@ -285,3 +316,10 @@ Example C16_example_maybechild :
   spawned_e 4 EntryMaybeChild (s2b "1") true (mkCfg false true) (s2b "on") true c_tokenPeriod_ns (100 * h) None
   = [mkProc KDelegated (s2b "2") true].
 Proof. split; vm_compute; reflexivity. Qed.
+
+Example C16_example_mode_files :
+  mode_of_bytes (s2b "off" ++ [10%N]) = s2b "off" /\ mode_of_bytes (s2b "off 2024-01-05" ++ [13%N; 10%N]) = s2b "off" /\
+  mode_of_bytes (s2b "on" ++ [10%N]) = s2b "on" /\ mode_of_bytes (s2b "offf") = s2b "offf" /\
+  mode_of_bytes (s2b "off" ++ [10%N] ++ s2b "2024-01-05") <> s2b "off" /\ mode_of_file None = s2b "local" /\
+  List.length off_spellings = 13%nat.
+Proof. repeat split; try (vm_compute; reflexivity). vm_compute. discriminate. Qed.
